@@ -89,6 +89,14 @@ def sym_sig(symbols):
     return [(s.name, s.type.name, s.lags, s.leads) for s in symbols if s.type in FOUR]
 
 
+def verbatim_of(symbols):
+    return [(s.name, s.type.name, s.lags, s.leads, s.code) for s in symbols if s.type == Type.VERBATIM]
+
+
+def expected_verbatim(rec):
+    return [(None, 'VERBATIM', None, None, R.verbatim_code(j, v['form'])) for j, v in enumerate(rec.get('verbat', []), start=1)]
+
+
 class _FlattenBool(ast.NodeTransformer):
     """(a and b) and c, a and (b and c) and a and b and c are the same expression (Python itself flattens chains)."""
 
@@ -160,6 +168,7 @@ def install(model, names, L, table, events):
     for n in names:
         arrays[n] = RecArray(n, table[n], events)
         model.__dict__['_' + n] = arrays[n]
+    model.__dict__['vmark'] = lambda j: events.append(('v', j))
     return arrays
 
 
@@ -202,6 +211,9 @@ def cmp_events(got, want):
         elif g[0] == 'branch':
             if not tree_eq(g[1:], w[1:]):
                 return f'branch {i}: {g} vs {w}'
+        elif g[0] == 'v':
+            if g != w:
+                return f'verbatim statement {i}: {g} vs {w}'
         else:
             return f'event {i}: {g}'
     return None
@@ -226,6 +238,9 @@ def run_reference(rec, names, span, t, table):
         s = rec['stmts'][si - 1]
         v = ref_eval(R.to_tree(s['rhs']), store)
         store.write(s['lhs']['n'], s['lhs']['k'], v)
+    for item in rec.get('codeorder', []):      # the specification's code order: the verbatim blocks run after the equations
+        if item['kind'] == 'verb':
+            ev.append(('v', item['i']))
     return ev
 
 
@@ -258,6 +273,7 @@ def check_c01(rec, names, Model, symbols, seed, tier, light=False):
             if bad:
                 raise Mis('c01-evaluation-differs-from-reference', why=bad, t=t, L=L, data=which)
             # the specification's own event list: order of statements, cell versions seen by each read
+            got = [e for e in got if e[0] != 'v']
             writes = [e for e in got if e[0] == 'w']
             if len(writes) != len(rec['events']):
                 raise Mis('c01-number-of-writes', got=len(writes), want=len(rec['events']))
@@ -545,14 +561,14 @@ def check_c14(rec, names, symbols, layouts, seed):
     base_code = {s.name: code_ast(s.code) for s in symbols if s.code is not None and s.type == Type.ENDOGENOUS}
     n = 0
     for layout in layouts:
-        text = R.render_program(rec['stmts'], names, layout, seed)
+        text = R.render_program(rec['stmts'], names, layout, seed, verbat=rec.get('verbat', []))
         try:
             syms = parse(text)
         except (ParserError, SymbolError, IndentationError) as e:
             raise Mis(f'c14-layout-rejected:{layout}', text=text, error=f'{type(e).__name__}: {str(e)[:200]}')
         n += 1
-        if sym_sig(syms) != base_sig:
-            raise Mis(f'c14-layout-changes-symbols:{layout}', text=text, got=sym_sig(syms), want=base_sig)
+        if sym_sig(syms) != base_sig or verbatim_of(syms) != verbatim_of(symbols):
+            raise Mis(f'c14-layout-changes-symbols:{layout}', text=text, got=sym_sig(syms) + verbatim_of(syms), want=base_sig + verbatim_of(symbols))
         code = {s.name: code_ast(s.code) for s in syms if s.code is not None and s.type == Type.ENDOGENOUS}
         if code != base_code:
             raise Mis(f'c14-layout-changes-code:{layout}', text=text,
@@ -576,12 +592,17 @@ def check_c14(rec, names, symbols, layouts, seed):
         for sym in parse(R.render_program([s], names, 'canon')):
             merged[sym.name] = merged.get(sym.name, sym).combine(sym)
         n += 1
-    if list(merged.values()) != [s for s in symbols if s.name is not None]:
-        raise Mis('c14-script-is-not-merge-of-statements', got=[tuple(s) for s in merged.values()][:6])
+    tail = []
+    for j, v in enumerate(rec.get('verbat', []), start=1):
+        tail += parse(R.verbatim_text(j, v['form']))
+        n += 1
+    if list(merged.values()) + tail != list(symbols):
+        raise Mis('c14-script-is-not-merge-of-statements', got=[tuple(s) for s in list(merged.values()) + tail][:6])
     # reordering statements only reorders symbols
-    if len(rec['stmts']) > 1:
-        order = list(range(len(rec['stmts'])))[::-1]
-        syms = parse(R.render_program(rec['stmts'], names, 'canon', seed, order))
+    n_items = len(rec['stmts']) + len(rec.get('verbat', []))
+    if n_items > 1:
+        order = list(range(n_items if rec.get('verbat') else len(rec['stmts'])))[::-1]
+        syms = parse(R.render_program(rec['stmts'], names, 'canon', seed, order, verbat=rec.get('verbat', [])))
         n += 1
         if sorted(map(tuple, syms), key=str) != sorted(map(tuple, symbols), key=str):
             raise Mis('c14-permutation-changes-symbols')
@@ -713,7 +734,7 @@ def process(rec, payload, out):
         renderings += [(payload['namemaps'][0], lay) for lay in payload.get('semantic_layouts', [])]
     for nm_name, layout in renderings:
         names = R.NAME_MAPS[nm_name]
-        script = R.render_program(rec['stmts'], names, layout)
+        script = R.render_program(rec['stmts'], names, layout, verbat=rec.get('verbat', []))
         coll = collision(rec, names)
         try:
             symbols = parse(script)
@@ -735,6 +756,8 @@ def process(rec, payload, out):
                 if sym_sig(symbols) != expected_sig(rec, names):
                     raise Mis('variable-named-like-called-function-silently-dropped', got=sym_sig(symbols), want=expected_sig(rec, names))
                 continue
+            if verbatim_of(symbols) != expected_verbatim(rec) or [s_.type for s_ in symbols[len(symbols) - len(rec.get('verbat', [])):]] != [Type.VERBATIM] * len(rec.get('verbat', [])):
+                raise Mis('verbatim-statements-differ-from-spec', got=verbatim_of(symbols), want=expected_verbatim(rec))
             Model = fsic.build_model(symbols)
             if 'c03' in checks:
                 did += check_c03(rec, names, symbols, Model, light=(layout != 'canon'))
@@ -762,7 +785,7 @@ def main():
     out = {'n': 0, 'nontrivial': 0, 'distinct': 0, 'mismatches': [], 'keys': {}}
     seen = set()
     for rec in payload['records']:
-        sig = json.dumps(rec['stmts'], sort_keys=True)
+        sig = json.dumps([rec['stmts'], rec.get('verbat', [])], sort_keys=True)
         if sig in seen:
             continue
         seen.add(sig)
